@@ -15,7 +15,7 @@ from concurrent.futures import ThreadPoolExecutor
 from vlib import *
 import planlib as pl
 
-MODULES = ["JxlModel.Props.C07"]
+MODULES = ["JxlModel.Props.C07", "JxlModel.Props.C07Nat"]
 POOLS = [0, 1, 2, 3, 4, 8, 16]
 FIXTURE = os.path.join(REPO, "crates/jxl-oxide-tests/tests/cms/cmyk_layers.jxl")
 CORPUS = os.path.join(VERIF, "corpus", "c07")
@@ -524,6 +524,43 @@ def progress(ctx, what):
     print(f"[C07 {ctx.tier} +{time.time() - ctx.t0:.0f}s] {what}", file=sys.stderr, flush=True)
 
 
+def natural_order_tie(ctx, ok):
+    """lazily built tables: `natural_order_lazy(idx)` asked for every index in seeded orders (fresh
+    process each, so every order of first use occurs), sequentially and from threads started together,
+    must return the table of that index = Jxl.NaturalOrder.table idx, whatever was built before"""
+    rng = ctx.rng
+    lines = []
+    for k in range(24 if ctx.quick else 300):
+        idx = list(range(13)) + [rng.randrange(9, 13) for _ in range(4)]
+        rng.shuffle(idx)
+        if k % 3 == 0:
+            idx = [i for i in idx if i >= 9][:rng.randint(2, 6)]
+        lines.append(("natorderp " if k % 2 else "natorder ") + " ".join(map(str, idx)))
+    want = {}
+    if ok:
+        mo = run_lines_robust([MODEL_EXE, "c07"], ["natorder " + " ".join(map(str, range(13)))], per_line_timeout=300)[0] or ""
+        want = dict(t.split("=") for t in mo.split()[1:])
+        if len(want) != 13:
+            ctx.failed_obligations.append("model driver: natorder failed: " + mo[:200])
+    for line in lines:
+        o = run_lines_robust([ctx.harness_bin("c07")], [line], per_line_timeout=120, batch=1)[0] or "crash"
+        ctx.case(("natorder", line), True)
+        ctx.count("natural-order:" + line.split()[0])
+        rep = {"harness": "c07", "line": line, "answer": o[:400], "how": "echo '<line>' | harness/target/debug/c07 (fresh process)"}
+        if not o.startswith("ok"):
+            ctx.violation("natural-order-table-panicked", o[:200], rep, key="c07:natorder-panic")
+            continue
+        got = [t.split("=") for t in o.split()[1:]]
+        per = {}
+        for i, v in got:
+            per.setdefault(i, set()).add(v)
+        if any(len(v) > 1 for v in per.values()):
+            ctx.violation("lazy-table-differs-between-calls", {k: sorted(v) for k, v in per.items() if len(v) > 1}, rep, key="c07:natorder-unstable")
+        elif want and any(want.get(i) != v for i, v in got):
+            bad = [(i, v, want.get(i)) for i, v in got if want.get(i) != v][:3]
+            ctx.violation("lazy-table-depends-on-what-was-built-before", {"idx,got,expected": bad}, rep, key="c07:natorder-history")
+
+
 def run(ctx):
     ok = ctx.lean_build(MODULES)
     if ok:
@@ -555,6 +592,7 @@ def run(ctx):
         return
 
     source_pins(ctx)
+    natural_order_tie(ctx, ok)
     partition_tie(ctx, ok)
     progress(ctx, 'pins and partition tie done')
 
